@@ -1,6 +1,7 @@
 import FgaVerif.Proofs.Weights
 import FgaVerif.Proofs.WeightsPump
 import FgaVerif.Proofs.WAssignPost
+import FgaVerif.Proofs.WAssignNode
 /-! # C04 — weights equal the true maximum tuple-hop depth (specification side)
 
     `Spec/Weights.lean` is a *specification*, not a port: the Go weight assignment (`AssignWeights`,
@@ -63,6 +64,19 @@ import FgaVerif.Proofs.WAssignPost
       `(m without R#n) ⊔ (weights of n, if m had R#n)`, a substitution that commutes with "plus one"
       because the weights of a resolved reference node are all Infinite; and an edge that violates the
       rule after a call violated it before or targets a node of the returned list.
+
+    * `algorithm_node_rule_on_success` (`Proofs/WAssignNode.lean`) — **every node weight is its strategy applied to
+      the final weights of its edges**: the pointwise maximum over the edges that have the key for a relation or a
+      union; for an intersection the keys common to **every edge** (not every operand: KF-C04-operand-grouping)
+      with the maximum; for an exclusion the keys of all edges but the last with the maximum over all edges.
+      The relation survives a cycle resolution because the simultaneous substitution of the resolved placeholder
+      in node and edges commutes with the maximum, and never reaches an intersection or an exclusion (their edges
+      hold no placeholder: they are only computed when no cycle reference is open).
+    * `algorithm_weights_witnessed`, `algorithm_keys_reachable` — the port never invents a type or a depth: every
+      key of a final weight map is the type of a terminal node reachable from the node along edges of the graph,
+      a finite weight is the number of hops of such a path, every weight is at most Infinite, and an Infinite weight
+      comes with a reachable cycle from which the type is reachable (or a path with at least Infinite hops).
+      With the edge rule and the node rule the weights are a witnessed fixed point of the equations.
 
     Not proved: that the fuel of the iteration always suffices (checked per input: `isFixpoint`,
     `normalB`), and that the port equals the specification.  -/
@@ -310,6 +324,129 @@ theorem lonely_exclusion_has_empty_weights :
     (match assignWeights lonelyExclusion [] with
       | .ok st => (st.visited, aget "exclusion:0" st.nodeW) | .error _ => ([], [("", 0)])) = (["exclusion:0"], []) := by
   decide +kernel
+
+/-! ### N. the node rule -/
+
+/-- what the maximum `unionL ms T` over a list of weight maps is: present iff some map has the key, then the value
+    of one of them, which dominates all the others -/
+theorem max_strategy_is_max (ms : List FgaVerif.Model.WAssign.WMap) (T : String) :
+    ((unionL ms T).isSome = true ↔ ∃ m ∈ ms, (wget T m).isSome = true) ∧
+    (∀ x, unionL ms T = some x → (∃ m ∈ ms, wget T m = some x) ∧ ∀ m ∈ ms, ∀ y, wget T m = some y → y ≤ x) := by
+  refine ⟨?_, fun x hx => ⟨unionL_attained ms T x hx, unionL_upper ms T x hx⟩⟩
+  rw [unionL_isSome, List.any_eq_true]
+
+/-- N. **every node weight is its strategy applied to the final weights of its edges** (`edgeMaps g v st` are the
+    final weight maps of the edges of `v`, in edge order; `unionL` is the pointwise maximum, `max_strategy_is_max`) -/
+theorem algorithm_node_rule_on_success (g : G) (hn : noPHTypesB g = true) (order : List String) (st : AState)
+    (h : assignWeights g order = .ok st) (v : String) (hv : v ∈ st.visited) :
+    (nodeType g v ≠ .operator ∨ nodeLabel g v = "union" →
+      ∀ T, wget T (aget v st.nodeW) = unionL (edgeMaps g v st) T) ∧
+    (nodeType g v = .operator ∧ nodeLabel g v = "intersection" →
+      ∀ T, wget T (aget v st.nodeW) =
+        if (edgeMaps g v st).all (fun m => (wget T m).isSome) = true then unionL (edgeMaps g v st) T else none) ∧
+    (nodeType g v = .operator ∧ nodeLabel g v = "exclusion" →
+      ∀ T, wget T (aget v st.nodeW) =
+        if (edgeMaps g v st).dropLast.any (fun m => (wget T m).isSome) = true then unionL (edgeMaps g v st) T else none) := by
+  have hok := assignWeights_node_rule g (noPHTypesB_sound g hn) order st h v hv
+  refine ⟨?_, ?_, ?_⟩
+  · intro hk T
+    have hm : isMaxNode g v = true := by
+      unfold isMaxNode
+      rcases hk with hk | hk
+      · cases hnt : nodeType g v with
+        | operator => exact absurd hnt hk
+        | _ => rfl
+      · rw [hk]; simp
+    rw [hok T]; unfold stratL; rw [if_pos hm]
+  · intro ⟨hop, hl⟩ T
+    have hm : isMaxNode g v = false := by unfold isMaxNode; rw [hop, hl]; decide
+    rw [hok T]; unfold stratL
+    rw [hm, if_neg (by simp), if_pos (by rw [hl]; rfl), interL_spec]
+  · intro ⟨hop, hl⟩ T
+    have hm : isMaxNode g v = false := by unfold isMaxNode; rw [hop, hl]; decide
+    rw [hok T]; unfold stratL
+    rw [hm, if_neg (by simp), if_neg (by rw [hl]; decide), if_pos (by rw [hl]; rfl), mixedL_spec]
+
+/-! ### W. every weight is witnessed -/
+
+/-- W. **the port never invents a type or a depth**: every entry `T ↦ w` of a final node weight map has
+    `w ≤ Infinite`; some path of the graph leads from the node to a terminal node of type `T` (`ReachN`, through
+    relation and operator nodes; for an intersection through any of its edges); if `w` is finite, `w` is the number
+    of hops (direct/TTU edges, the edge into the terminal node counting one) of such a path; if `w` is Infinite, a
+    cycle from which `T` is reachable is reachable from the node, or some such path has at least Infinite hops -/
+theorem algorithm_weights_witnessed (g : G) (hn : noPHTypesB g = true) (order : List String) (st : AState)
+    (h : assignWeights g order = .ok st) (v T : String) (w : Nat) (hw : wget T (aget v st.nodeW) = some w) :
+    w ≤ FgaVerif.Model.WAssign.infinite ∧ (∃ j, ReachN g v T j) ∧ (w < FgaVerif.Model.WAssign.infinite → ReachN g v T w) ∧
+    (w = FgaVerif.Model.WAssign.infinite → (∃ m, (v = m ∨ Conn g v m) ∧ Conn g m m ∧ ∃ k, ReachN g m T k) ∨ ∃ k, FgaVerif.Model.WAssign.infinite ≤ k ∧ ReachN g v T k) :=
+  (assignWeights_witnessed g (noPHTypesB_sound g hn) order st h).1 v T w hw
+
+/-- the key part of W: every key of a final weight map is the type of a terminal node reachable from the node -/
+theorem algorithm_keys_reachable (g : G) (hn : noPHTypesB g = true) (order : List String) (st : AState)
+    (h : assignWeights g order = .ok st) (v T : String) (hk : (wget T (aget v st.nodeW)).isSome = true) :
+    ∃ j, ReachN g v T j := by
+  obtain ⟨w, hw⟩ := Option.isSome_iff_exists.1 hk
+  exact (algorithm_weights_witnessed g hn order st h v T w hw).2.1
+
+/-! non-vacuity of N and W.  On the tuple cycle `algoCycle` (started from `doc#b`) the rule is evaluated at `doc#a`, a
+    node that was rewritten by a cycle resolution: key by key the node weight and the maximum over the final edge
+    weights (`{user:1}` and `{bot:∞, user:∞}`) agree; `zzz` is absent from both -/
+example : (match assignWeights algoCycle ["doc#b"] with
+    | .ok st => (decide ("doc#a" ∈ st.visited), edgeMaps algoCycle "doc#a" st,
+        ["bot", "user", "zzz"].map (fun T => (wget T (aget "doc#a" st.nodeW), unionL (edgeMaps algoCycle "doc#a" st) T)))
+    | .error _ => (false, [], [])) =
+    (true, [[("user", 1)], [("bot", 2147483647), ("user", 2147483647)]],
+      [(some 2147483647, some 2147483647), (some 2147483647, some 2147483647), (none, none)]) := by decide +kernel
+
+/-- `define v: a and c`, `define w: a but not b`, `define a: [user, bot]`, `define b: [user, doc#a]`,
+    `define c: [doc#b, doc#c]`: an intersection with the edges `→ doc#a` (`{bot:1, user:1}`) and `→ doc#c` (on a tuple
+    cycle: `{bot:∞, user:∞}`), and an exclusion with the edges `→ doc#a` and `→ doc#b` (`{bot:2, user:2}`) -/
+def opDemo : G := {
+  nodes := [⟨"doc#v", "doc#v", .typeAndRelation⟩, ⟨"intersection:0", "intersection", .operator⟩,
+            ⟨"doc#w", "doc#w", .typeAndRelation⟩, ⟨"exclusion:1", "exclusion", .operator⟩,
+            ⟨"doc#a", "doc#a", .typeAndRelation⟩, ⟨"doc#b", "doc#b", .typeAndRelation⟩,
+            ⟨"doc#c", "doc#c", .typeAndRelation⟩,
+            ⟨"user", "user", .specificType⟩, ⟨"bot", "bot", .specificType⟩],
+  edges := [("doc#v", [⟨"doc#v", "intersection:0", .rewrite, "", ["none"]⟩]),
+            ("intersection:0", [⟨"intersection:0", "doc#a", .rewrite, "", ["none"]⟩, ⟨"intersection:0", "doc#c", .rewrite, "", ["none"]⟩]),
+            ("doc#w", [⟨"doc#w", "exclusion:1", .rewrite, "", ["none"]⟩]),
+            ("exclusion:1", [⟨"exclusion:1", "doc#a", .rewrite, "", ["none"]⟩, ⟨"exclusion:1", "doc#b", .rewrite, "", ["none"]⟩]),
+            ("doc#a", [⟨"doc#a", "user", .direct, "", ["none"]⟩, ⟨"doc#a", "bot", .direct, "", ["none"]⟩]),
+            ("doc#b", [⟨"doc#b", "user", .direct, "", ["none"]⟩, ⟨"doc#b", "doc#a", .direct, "", ["none"]⟩]),
+            ("doc#c", [⟨"doc#c", "doc#b", .direct, "", ["none"]⟩, ⟨"doc#c", "doc#c", .direct, "", ["none"]⟩])] }
+example : noPHTypesB opDemo = true := by decide +kernel
+/-- the hypotheses of the intersection and exclusion clauses of N hold, and the conclusions evaluate as stated:
+    the intersection keeps the keys common to both edges with the maximum (`doc#c` is on a tuple cycle: Infinite),
+    the exclusion the keys of its base with the maximum over base and subtracted operand -/
+example : (match assignWeights opDemo [] with
+    | .ok st => (decide ("intersection:0" ∈ st.visited), edgeMaps opDemo "intersection:0" st, aget "intersection:0" st.nodeW)
+    | .error _ => (false, [], [])) =
+    (true, [[("bot", 1), ("user", 1)], [("bot", 2147483647), ("user", 2147483647)]],
+      [("bot", 2147483647), ("user", 2147483647)]) := by decide +kernel
+example : (match assignWeights opDemo [] with
+    | .ok st => (decide ("exclusion:1" ∈ st.visited), edgeMaps opDemo "exclusion:1" st, aget "exclusion:1" st.nodeW)
+    | .error _ => (false, [], [])) =
+    (true, [[("bot", 1), ("user", 1)], [("bot", 2), ("user", 2)]], [("bot", 2), ("user", 2)]) := by decide +kernel
+example : nodeType opDemo "intersection:0" = .operator ∧ nodeLabel opDemo "intersection:0" = "intersection" ∧
+    nodeType opDemo "exclusion:1" = .operator ∧ nodeLabel opDemo "exclusion:1" = "exclusion" := by decide
+
+/-- W on `hopDemo`: the weight `user ↦ 2` of `doc#b` (a finite weight: the premise of the hop-count clause holds) is
+    the hop count of the path `doc#b → doc#a → user` -/
+example : (match assignWeights hopDemo ["doc#c", "doc#b"] with
+    | .ok st => wget "user" (aget "doc#b" st.nodeW) | .error _ => none) = some 2 := by decide +kernel
+example : ReachN hopDemo "doc#b" "user" 2 :=
+  ReachN.step ⟨"doc#b", "doc#a", .direct, "", ["none"]⟩
+    (List.mem_of_getElem? (l := edgesOf hopDemo "doc#b") (i := 0) (by decide)) (by decide)
+    (ReachN.term ⟨"doc#a", "user", .direct, "", ["none"]⟩
+      (List.mem_of_getElem? (l := edgesOf hopDemo "doc#a") (i := 0) (by decide)) (by decide))
+/-- … and on `algoCycle` the premise of the Infinite clause holds (`user ↦ ∞` at `doc#a`), witnessed by the cycle
+    `doc#a → doc#b → doc#a` -/
+example : (match assignWeights algoCycle ["doc#b"] with
+    | .ok st => wget "user" (aget "doc#a" st.nodeW) | .error _ => none) = some FgaVerif.Model.WAssign.infinite := by decide +kernel
+example : Conn algoCycle "doc#a" "doc#a" :=
+  Conn.step ⟨"doc#a", "doc#b", .direct, "", ["none"]⟩
+    (List.mem_of_getElem? (l := edgesOf algoCycle "doc#a") (i := 1) (by decide)) (by decide)
+    (Conn.edge ⟨"doc#b", "doc#a", .direct, "", ["none"]⟩
+      (List.mem_of_getElem? (l := edgesOf algoCycle "doc#b") (i := 1) (by decide)) (by decide))
 
 end algorithm
 
